@@ -60,7 +60,7 @@ def _save_originals():
 
 
 class SimRNG:
-    def __init__(self, seed, fault=None, budget_calls=2000, budget_elems=int(5e7),
+    def __init__(self, seed, fault=None, budget_calls=20000, budget_elems=int(5e7),
                  keep_log=64):
         _save_originals()
         self.seed = int(seed)
@@ -74,6 +74,7 @@ class SimRNG:
         only = self.fault.get("only")
         self.only = None if only is None else set(only)
         self.reject = dict(self.fault.get("reject", {}))  # site -> k rounds
+        self.fault_window = int(self.fault.get("window", 24))  # faulted draws per operation
         self.seq = 0
         self.op_index = -1
         self.op_calls = 0
@@ -116,6 +117,9 @@ class SimRNG:
         if not self.kinds or self.rate <= 0.0:
             return None, None
         if self.only is not None and self.seq not in self.only:
+            return None, None
+        if self.op_calls >= self.fault_window:
+            # faults stop: termination is claimed "within the budget once faults stop"
             return None, None
         r = random.Random(H(self.fault_seed, "draw", self.seq))
         if r.random() >= self.rate:
